@@ -121,6 +121,15 @@ func (s *StrategyChoiceModule) set(interest *spec.Interest, pitToken []byte, inF
 			strategyVersion = version
 		}
 	}
+	if len(params.Strategy.Name) > len(s.strategyPrefix)+2 {
+		// Strategy parameters (components after the version) are not supported: the forwarding
+		// threads only know strategies by <prefix>/<name>/<version>
+		core.LogWarn(s, "Unsupported parameters in Strategy=", params.Strategy,
+			" in ControlParameters for Interest=", interest.Name())
+		response = makeControlResponse(404, "Unknown strategy", nil)
+		s.manager.sendResponse(response, interest, pitToken, inFace)
+		return
+	}
 	if len(params.Strategy.Name) > len(s.strategyPrefix)+1 &&
 		params.Strategy.Name[len(s.strategyPrefix)+1].Typ != enc.TypeVersionNameComponent {
 		core.LogWarn(s, "Unknown Version=", params.Strategy.Name[len(s.strategyPrefix)+1],
@@ -151,6 +160,10 @@ func (s *StrategyChoiceModule) set(interest *spec.Interest, pitToken []byte, inF
 			s.manager.sendResponse(response, interest, pitToken, inFace)
 			return
 		}
+		// Store the version in its canonical encoding, which is how the strategies are keyed
+		versionPos := len(s.strategyPrefix) + 1
+		params.Strategy.Name = append(params.Strategy.Name[:versionPos:versionPos],
+			enc.NewVersionComponent(uint64(strategyVersion)))
 	} else {
 		// Add missing version information to strategy name
 		params.Strategy.Name = append(params.Strategy.Name, enc.NewVersionComponent(strategyVersion))
